@@ -1,5 +1,6 @@
 """C02 - a forwarding node never loses money on an HTLC it forwards (structural part)."""
 from engine import *
+import linforms
 import obligations
 import ordimpls
 import provenance
@@ -263,8 +264,13 @@ def r02g(F):
 	out += P7_guard(F, '02.g', fn, 'cltv: expiry >= outgoing + delta', r'cltv_expiry$', r'^outgoing_cltv_value$', 'Lt', 0, extra=1, true_reaches=constructs_pred('LocalHTLCFailureReason', 'IncorrectCLTVExpiry'))
 	# fee = amt*prop/1e6 + base
 	fee_ok = False
-	for n in F.family(fn):
-		f2 = F.func(n)
+	# the fee computation may sit in the function, its closures or a helper of channel.rs it calls directly
+	helpers = [n for n in reachable_fns(F, [fn], depth=1) if n.startswith(('lightning::ln::channel::', '<lightning::ln::channel::'))]
+	for n in list(dict.fromkeys(list(F.family(fn)) + sorted(helpers))):
+		try:
+			f2 = F.func(n)
+		except AnchorMissing:
+			continue
 		ex = Expr(f2)
 		for bi, si, s in f2.stmts():
 			rv = s[2]
@@ -441,3 +447,4 @@ def r02j9(F):
 	return out
 RULES.append(('02.J', 'a forward / fail-back held while a monitor update is in flight survives a second pause (09.j under C02)', r02j9))
 RULES.append(('02.N', 'arithmetic census: per reviewed function the set of operation kinds (group: add/sub, mul, div, rem, shift, bit, min, max, div_ceil ...; flavour: plain / checked / saturating / wrapping) keeps its kinds: no reviewed function lost or gained a kind of arithmetic altogether - a rounding direction (`/` for div_ceil), saturating for checked, min for max (rules/arith.py; counts and value arithmetic itself are not judged)', lambda F: arith.for_property(F, 'C02', '02.N')))
+RULES.append(('02.K', 'constant census of linear forms: every comparison (normalised to sum >= K over name-free atoms, a comparison and its negation being one form) and every maximal arithmetic expression of a reviewed function keeps its coefficients and its constant - a dropped or added `+ 1` / `- 1`, `<` for `<=` inside a computed bound, a scale factor applied twice or not at all, swapped operands of a comparison (rules/linforms.py; shapes that appear or disappear are not judged, the guard / arithmetic censuses judge those)', lambda F: linforms.for_property(F, 'C02', '02.K')))
